@@ -645,3 +645,107 @@ tree_new_root!(c20_tree_new_7, 7);
 tree_new_root!(c20_tree_new_15, 15);
 //@ {"p":"C20","tier":"experimental","clause":"same for N=3 (two peaks)","bounds":"N=3","covers":0,"t":900,"unwindset":{"search_tree.0":2,"find_key_index.0":14}}
 tree_new_root!(c20_tree_new_3, 3);
+
+// ---------------------------------------------------------------------------------------------
+// Entry framing (the real generic `Entry::<V>::{read, write}`), instantiated with a structural
+// version whose record is three little-endian u64s, so that every byte of the entry is symbolic.
+// ---------------------------------------------------------------------------------------------
+pub enum SW {}
+impl Version for SW {
+    type NodeData = SNode;
+    fn consensus_branch_id(_d: &SNode) -> u32 {
+        1
+    }
+    fn start_height(d: &SNode) -> u64 {
+        d.start
+    }
+    fn end_height(d: &SNode) -> u64 {
+        d.end
+    }
+    fn combine(l: &SNode, r: &SNode) -> SNode {
+        SNode { start: l.start, end: r.end, mix: smix(l, r) }
+    }
+    fn combine_inner(_c: [u8; 32], l: &SNode, r: &SNode) -> SNode {
+        Self::combine(l, r)
+    }
+    fn read<R: corez::io::Read>(_b: u32, r: &mut R) -> corez::io::Result<SNode> {
+        let mut b = [0u8; 8];
+        r.read_exact(&mut b)?;
+        let start = u64::from_le_bytes(b);
+        r.read_exact(&mut b)?;
+        let end = u64::from_le_bytes(b);
+        r.read_exact(&mut b)?;
+        let mix = u64::from_le_bytes(b);
+        Ok(SNode { start, end, mix })
+    }
+    fn write<W: corez::io::Write>(d: &SNode, w: &mut W) -> corez::io::Result<()> {
+        w.write_all(&d.start.to_le_bytes())?;
+        w.write_all(&d.end.to_le_bytes())?;
+        w.write_all(&d.mix.to_le_bytes())
+    }
+}
+
+fn le64(b: &[u8], at: usize) -> u64 {
+    let mut x = [0u8; 8];
+    x.copy_from_slice(&b[at..at + 8]);
+    u64::from_le_bytes(x)
+}
+
+//@ {"p":"C20","tier":"quick","clause":"Entry::read on an arbitrary buffer: Ok iff the tag is 0 (node: two little-endian u32 stored links, then the record) or 1 (leaf: the record) and the buffer is long enough; kind, links and record are exactly what the bytes say; Entry::write of the result reproduces the consumed bytes; an entry with a Generated link cannot be written (InvalidData, nothing after the check)","bounds":"all buffers of length 0..=33 (33 = node tag + links + 24-byte record of the structural version)","assume":"generic Entry code instantiated with a structural Version (24-byte record); Err values forgotten","covers":4,"t":900}
+#[kani::proof]
+#[kani::unwind(34)]
+fn c20_entry_framing() {
+    let buf: [u8; 33] = kani::any();
+    let len: usize = kani::any();
+    kani::assume(len <= 33);
+    let mut rd: &[u8] = &buf[..len];
+    let r = Entry::<SW>::read(1, &mut rd);
+    let want_len = if len >= 1 && buf[0] == 0 {
+        Some(33)
+    } else if len >= 1 && buf[0] == 1 {
+        Some(25)
+    } else {
+        None
+    };
+    let want_ok = matches!(want_len, Some(n) if len >= n);
+    match r {
+        Ok(e) => {
+            assert!(want_ok);
+            let n = want_len.unwrap();
+            assert!(rd.len() == len - n);
+            let at = n - 24;
+            assert!(e.data().start == le64(&buf, at) && e.data().end == le64(&buf, at + 8) && e.data().mix == le64(&buf, at + 16));
+            if buf[0] == 0 {
+                let l = u32::from_le_bytes([buf[1], buf[2], buf[3], buf[4]]);
+                let rr = u32::from_le_bytes([buf[5], buf[6], buf[7], buf[8]]);
+                assert!(!e.leaf());
+                assert!(matches!(e.left(), Ok(EntryLink::Stored(x)) if x == l));
+                assert!(matches!(e.right(), Ok(EntryLink::Stored(x)) if x == rr));
+                kani::cover!(l != rr);
+            } else {
+                assert!(e.leaf() && e.left().is_err());
+                kani::cover!(len > 25);
+            }
+            // write reproduces the consumed bytes
+            let probe: usize = kani::any();
+            kani::assume(probe < n);
+            let mut w = ProbeWriter { pos: 0, probe, got: None };
+            let wr = e.write(&mut w);
+            assert!(wr.is_ok());
+            core::mem::forget(wr);
+            assert!(w.pos == n && w.got == Some(buf[probe]));
+        }
+        Err(e) => {
+            assert!(!want_ok);
+            kani::cover!(len >= 1 && buf[0] == 2);
+            kani::cover!(len == 32 && buf[0] == 0);
+            core::mem::forget(e);
+        }
+    }
+    // an entry with a generated link is refused by write
+    let g: Entry<SW> = Entry::new(SNode { start: 1, end: 2, mix: 3 }, EntryLink::Stored(kani::any()), EntryLink::Generated(kani::any()));
+    let mut w = ProbeWriter { pos: 0, probe: 0, got: None };
+    let wr = g.write(&mut w);
+    assert!(wr.is_err() && w.pos == 0);
+    core::mem::forget(wr);
+}
